@@ -56,7 +56,21 @@ def r1(ctx: Ctx) -> None:
 
 def _selector(l: Event, ctx: Optional[Ctx] = None) -> Optional[bool]:
     """True/False if the loop iterates only (non-)IndexMarket instances, None if unfiltered."""
-    it = l.iter
+    return _selector_of(l.iter, ctx)
+
+
+def _segments(it: Optional[Term]) -> List[Optional[Term]]:
+    """a + b (lists built one after the other) is walked as a, then b"""
+    if it is not None:
+        t = strip_ver(it)
+        if t[0] == "bin" and t[1] == "+":
+            return _segments(t[2]) + _segments(t[3])
+        if t[0] == "call" and key(t[1]) in ("list", "tuple", "iter") and len(t[2]) == 1:
+            return _segments(t[2][0])
+    return [it]
+
+
+def _selector_of(it: Optional[Term], ctx: Optional[Ctx] = None) -> Optional[bool]:
     # filter(pred, xs) / itertools.filterfalse(pred, xs) with a named predicate `return isinstance(x, IndexMarket)`
     if it is not None and ctx is not None and it[0] == "call" and key(it[1]) in ("filter", "itertools.filterfalse", "filterfalse") and len(it[2]) == 2 and it[2][0][0] == "name":
         nm_ = it[2][0][1]
@@ -96,9 +110,11 @@ def r2(ctx: Ctx) -> None:
     for p in normal_paths(ctx.paths(UTS)):
         lps = loops(p)
         seq: List[Tuple[Optional[bool], str]] = []
+        memo = None
         for l in lps:
-            base_sel = _selector(l, ctx)
-            src = l.iter
+          for seg in _segments(l.iter):
+            base_sel = _selector_of(seg, ctx)
+            src = seg
             if src is not None and src[0] == "call" and key(src[1]) in ("filter", "itertools.filterfalse", "filterfalse"):
                 src = src[2][1]
             elif src is not None and src[0] == "comp":
@@ -113,6 +129,11 @@ def r2(ctx: Ctx) -> None:
                 if cs:
                     good = len(cs) == 1 and kw(cs[0], "market", 0) == el
                     seq.append((sel if good else None, short(src)))
+                    if src is not None and any(x[0] == "attr" and x[1] == ("sym", "self") for x in subterms(strip_ver(src))):
+                        memo = src
+        if memo is not None:
+            ctx.unrec(f, f.node, "stepping order over the given markets", "the markets are walked in an order kept in state of the simulator (" + short(memo)[:80] + "): whether that list is the current set of markets, ordinary ones first, is not decided")
+            continue
         ok = [s for s, _ in seq] == [False, True] and all(src == "markets" for _, src in seq)
         if not ok:
             from ..kit import late_bound
@@ -148,8 +169,12 @@ def r2(ctx: Ctx) -> None:
                 ok = callee == "self.fundamentals.get_fundamental_price" and t is not None and poly_of(strip_ver(t)) == want_t and mid is not None and key(strip_ver(mid)) == "market.market_id"
             ctx.check(ok, g, ups[0].node, "the fundamental recorded for the new slot is the one for time + 1 of that market",
                       "fundamentals.get_fundamental_price(market_id, time+1) | compute_fundamental_index(time+1) for index markets", short(arg))
-        elif arg is not None and any(x[0] == "attr" and x[1] == ("sym", "self") and x[2] not in ("fundamentals",) for x in subterms(strip_ver(arg))):
-            ctx.unrec(g, ups[0].node, "the fundamental recorded for the new slot is the one for time + 1 of that market", "the value comes from state kept by the simulator (a memo): whether it equals the lookup for time + 1 is not decided", short(arg))
+        elif arg is not None and any(x[0] == "attr" and ((x[1] == ("sym", "self") and x[2] not in ("fundamentals",)) or (x[1] == ("sym", "market") and x[2].startswith("_"))) for x in subterms(strip_ver(arg))):
+            ctx.unrec(g, ups[0].node, "the fundamental recorded for the new slot is the one for time + 1 of that market", "the value comes from state kept by the simulator or the market (a memo): whether it equals the lookup for time + 1 is not decided", short(arg))
+        elif arg is not None and strip_ver(arg)[0] != "const" and any(x[0] == "sym" and (x[1].startswith("new") or x[1].startswith("ψ")) for x in subterms(strip_ver(arg))):
+            ctx.unrec(g, ups[0].node, "the fundamental recorded for the new slot is the one for time + 1 of that market", "the value is taken out of a container built on the way: what it holds is not followed", short(arg))
+        elif arg is not None and any(x[0] == "attr" and x[2] == "prices" and key(x[1]).endswith("fundamentals") for x in subterms(strip_ver(arg))):
+            ctx.unrec(g, ups[0].node, "the fundamental recorded for the new slot is the one for time + 1 of that market", "the value is read from the generator's storage instead of asked for: whether that slot holds the value for time + 1 at this moment is not decided", short(arg))
         else:
             ctx.violated(g, ups[0].node, "the fundamental recorded for the new slot is the one for time + 1 of that market", "a fundamental lookup for time + 1", short(arg))
     ctx.require(n >= 2, f"{UTM}: expected the ordinary and the index-market branch")
